@@ -100,6 +100,11 @@ def run_group(hists, vars_, tag, schedule=None, switch=None):
         tr["other_fresh"] = [x for j in range(n) if j != i for x in fresh[j]]
         tr["crash"] = errors[i] or ("hung" if results[i] is None else "")
         out.append(tr)
+    # the contexts only had to stay alive (ids not reused) while this group ran: holding every context of a long run
+    # costs gigabytes
+    del _KEEP[:]
+    import gc
+    gc.collect()
     return out
 
 
@@ -178,13 +183,16 @@ def main():
             switch = rng.choice([0.005, 0.0001, 0.00001])
         all_hists.append(hists)
         all_traces.append(run_group(hists, ALPHA["vars"], f"{job.get('tag', 'thr')}-{job.get('seed', 0)}-{g}", schedule, switch))
-    solo = run_solo(job, all_hists)
-    for g, trs in enumerate(all_traces):
-        for i, tr in enumerate(trs):
-            tr["solo"] = solo[g][i]
-            calls += len(tr["ev"])
-            out.write(tr, nontrivial_key=[tr["tid"]], outcome=job["mode"],
-                      sample={"threads": tr["nthreads"], "mode": job["mode"], "calls": len(tr["ev"])})
+        if len(all_traces) >= 24 or g == job["groups"] - 1:
+            # the alone-reference for this chunk of groups, then write the chunk (bounded memory)
+            solo = run_solo(job, all_hists)
+            for gi, trs in enumerate(all_traces):
+                for i, tr in enumerate(trs):
+                    tr["solo"] = solo[gi][i]
+                    calls += len(tr["ev"])
+                    out.write(tr, nontrivial_key=[tr["tid"]], outcome=job["mode"],
+                              sample={"threads": tr["nthreads"], "mode": job["mode"], "calls": len(tr["ev"])})
+            all_hists, all_traces = [], []
     out.close({"calls": calls})
 
 
